@@ -7,7 +7,7 @@
 //	serves scenarios until one hangs or kills it. The parent is the watchdog and the trace writer:
 //	  Scenario, CycleStart, Snapshot{live}, Bind{pod,node}*, CycleEnd{ms}
 //	  ... Panic{msg,where}      recovered in the cycle goroutine, or "process died"
-//	  ... Timeout{after}        no completion within -timeout; child killed
+//	  ... Timeout{after}        no completion within -timeout and, in a fresh child, within 3 x -timeout; child killed
 //	-hangcap k: once k scenarios with the same `sig` timed out, further scenarios with that sig are
 //	not run (each costs a full timeout and adds no new signature); they are counted as skipped.
 //
@@ -408,7 +408,7 @@ func main() {
 	pending := order
 	timeouts := map[string]int{}
 	inflight := map[string]int{}
-	skipped, nTimeout, nDied, nPanic := 0, 0, 0, 0
+	skipped, nTimeout, nDied, nPanic, nRetried := 0, 0, 0, 0, 0
 	// pick the next runnable scenario. Scenarios of a sig that already reached -hangcap timeouts are
 	// dropped; predicted-hanging scenarios of a sig wait while -hangcap of them are in flight (so that
 	// an unrepaired tree costs hangcap watchdog periods per sig, not one per worker).
@@ -462,72 +462,93 @@ func main() {
 					return
 				}
 				s := scens[idx]
-				if w == nil {
-					w = spawn()
-				}
 				b, _ := json.Marshal(s)
-				if _, err := w.stdin.Write(append(b, '\n')); err != nil {
-					// the child is gone (should not happen between scenarios): restart once
-					w.kill()
-					w = spawn()
-					_, _ = w.stdin.Write(append(b, '\n'))
-				}
 				var evs []string
-				timer := time.NewTimer(*timeout)
-				done := false
-				for !done {
-					select {
-					case line, ok := <-w.lines:
-						if !ok {
-							// process died
-							tail := w.stderr.String()
-							msg := "process died"
-							if m := fatalRe.FindString(tail); m != "" {
-								msg = "process died: " + m
-							}
-							where := ""
-							if i := strings.Index(tail, msg[len("process died"):]); i >= 0 {
-								for _, m := range frameRe.FindAllStringSubmatch(tail[i:], -1) {
-									where = strings.TrimPrefix(m[1], "github.com/NVIDIA/KAI-scheduler/")
-									break
+				// A scenario that does not complete within the watchdog period is run a second time in a fresh
+				// child with a three times longer period: only a scenario that fails to complete twice is a
+				// Timeout (a machine-wide stall must not look like a non-terminating cycle).
+				for attempt := 1; attempt <= 2; attempt++ {
+					period := *timeout
+					if attempt == 2 {
+						period = 3 * *timeout
+					}
+					if w == nil {
+						w = spawn()
+					}
+					if _, err := w.stdin.Write(append(b, '\n')); err != nil {
+						// the child is gone (should not happen between scenarios): restart once
+						w.kill()
+						w = spawn()
+						_, _ = w.stdin.Write(append(b, '\n'))
+					}
+					evs = nil
+					timedOut := false
+					timer := time.NewTimer(period)
+					done := false
+					for !done {
+						select {
+						case line, ok := <-w.lines:
+							if !ok {
+								// process died
+								tail := w.stderr.String()
+								msg := "process died"
+								if m := fatalRe.FindString(tail); m != "" {
+									msg = "process died: " + m
 								}
+								where := ""
+								if i := strings.Index(tail, msg[len("process died"):]); i >= 0 {
+									for _, m := range frameRe.FindAllStringSubmatch(tail[i:], -1) {
+										where = strings.TrimPrefix(m[1], "github.com/NVIDIA/KAI-scheduler/")
+										break
+									}
+								}
+								if len(msg) > 300 {
+									msg = msg[:300]
+								}
+								pe, _ := json.Marshal(map[string]any{"ev": "Panic", "msg": msg, "where": where})
+								evs = append(evs, string(pe))
+								w.kill()
+								w = nil
+								mu.Lock()
+								nDied++
+								mu.Unlock()
+								done = true
+								break
 							}
-							if len(msg) > 300 {
-								msg = msg[:300]
+							if strings.Contains(line, `"ev":"_done"`) {
+								done = true
+								break
 							}
-							pe, _ := json.Marshal(map[string]any{"ev": "Panic", "msg": msg, "where": where})
-							evs = append(evs, string(pe))
+							if strings.Contains(line, `"ev":"Panic"`) {
+								mu.Lock()
+								nPanic++
+								mu.Unlock()
+							}
+							evs = append(evs, line)
+						case <-timer.C:
 							w.kill()
 							w = nil
-							mu.Lock()
-							nDied++
-							mu.Unlock()
+							timedOut = true
 							done = true
-							break
 						}
-						if strings.Contains(line, `"ev":"_done"`) {
-							done = true
-							break
-						}
-						if strings.Contains(line, `"ev":"Panic"`) {
-							mu.Lock()
-							nPanic++
-							mu.Unlock()
-						}
-						evs = append(evs, line)
-					case <-timer.C:
-						te, _ := json.Marshal(map[string]any{"ev": "Timeout", "after": int(timeout.Seconds())})
-						evs = append(evs, string(te))
-						w.kill()
-						w = nil
-						mu.Lock()
-						timeouts[s.Sig]++
-						nTimeout++
-						mu.Unlock()
-						done = true
 					}
+					timer.Stop()
+					if !timedOut {
+						break
+					}
+					if attempt == 1 {
+						mu.Lock()
+						nRetried++
+						mu.Unlock()
+						continue
+					}
+					te, _ := json.Marshal(map[string]any{"ev": "Timeout", "after": int(timeout.Seconds()) + int(period.Seconds())})
+					evs = append(evs, string(te))
+					mu.Lock()
+					timeouts[s.Sig]++
+					nTimeout++
+					mu.Unlock()
 				}
-				timer.Stop()
 				if len(evs) == 0 || !strings.Contains(evs[0], `"ev":"Scenario"`) {
 					// the child died before echoing the scenario: write the scenario line ourselves
 					se, _ := json.Marshal(s.event())
@@ -565,6 +586,6 @@ func main() {
 		fmt.Fprintln(os.Stderr, err)
 		os.Exit(2)
 	}
-	fmt.Printf("scenarios=%d ran=%d skipped_after_hangcap=%d timeouts=%d recovered_panics=%d process_deaths=%d events=%d\n",
-		len(scens), ran, skipped, nTimeout, nPanic, nDied, tw.Count())
+	fmt.Printf("scenarios=%d ran=%d skipped_after_hangcap=%d timeouts=%d (first-attempt timeouts retried=%d) recovered_panics=%d process_deaths=%d events=%d\n",
+		len(scens), ran, skipped, nTimeout, nRetried, nPanic, nDied, tw.Count())
 }
